@@ -5,7 +5,14 @@ Local Open Scope Z_scope.
 
 Definition etype_of (p : pay) : Z := p_type p.
 
-Definition sdo_cmd fuel end_ns := do_cmd invoke_script etype_of fuel end_ns.
+(** The metric of a scripted entity: how many events it has handled so far
+    (attribute `count` of the harness' ScriptEntity); no such entity -> None. *)
+Definition metric_of (u : ustate) (ent : Z) : option Z :=
+  if (0 <=? ent) && (ent <? Z.of_nat (length (prog u))) then
+    Some (Z.of_nat (length (filter (fun x => match x with UHandle _ g _ => g =? ent | _ => false end) (ulog u))))
+  else None.
+
+Definition sdo_cmd fuel end_ns := do_cmd invoke_script etype_of metric_of fuel end_ns.
 
 Definition phase_code (p : phase) : Z :=
   match p with NotStarted => 0 | IsPaused => 1 | Done => 2 | Failed => 3 | OutOfFuel => 4 end.
